@@ -306,6 +306,20 @@ class HiddenTunnelCommunity(TunnelCommunity):
                 swarm.remove_connection(circuit)
         return super().remove_circuit(circuit_id, additional_info, remove_now, destroy)
 
+    async def _unload_pex(self, info_hash: bytes, pex: PexCommunity) -> None:
+        """
+        Take a PEX community that has no introduction points left out of the service and unload it.
+
+        Until this has run the community stays in ``self.pex``, so that ``unload`` can still find it.
+        """
+        if self.pex.get(info_hash) is not pex or not pex.done:
+            return
+        self.pex.pop(info_hash, None)
+        if self.ipv8 is not None and pex in self.ipv8.overlays:
+            self.ipv8.overlays.remove(pex)
+            self.ipv8.strategies = [t for t in self.ipv8.strategies if t[0].overlay != pex]
+        await pex.unload()
+
     def remove_exit_socket(self, circuit_id: int, additional_info: str = "", remove_now: bool = False,
                            destroy: bool = False) -> Coroutine[Any, Any, TunnelExitSocket | None]:
         """
@@ -323,11 +337,7 @@ class HiddenTunnelCommunity(TunnelCommunity):
 
                     # Unload PEX community (once our task manager is shut down, unload() takes care of what is left)
                     if pex.done and not self._shutdown:
-                        self.pex.pop(info_hash, None)
-                        if self.ipv8 is not None:
-                            self.ipv8.overlays.remove(pex)
-                            self.ipv8.strategies = [t for t in self.ipv8.strategies if t[0].overlay != pex]
-                        self.register_anonymous_task("unload_pex", pex.unload)
+                        self.register_anonymous_task("unload_pex", self._unload_pex, info_hash, pex)
 
         for cookie, rendezvous_circuit in list(self.rendezvous_point_for.items()):
             if rendezvous_circuit.circuit_id == circuit_id:
